@@ -246,12 +246,22 @@ def diff_results(r1, r2, tol):
     if list(a.keys()) != list(b.keys()):
         only = [k for k in a if k not in b][:2] + [k for k in b if k not in a][:2]
         out.append(("records", len(a), f"{len(b)} (e.g. {only})" if only else f"{len(b)} (different order)"))
+    from wsimod.core import constants
+    nonadd = set(constants.NON_ADDITIVE_POLLUTANTS)
     for k in a:
         if k in b:
             for f in a[k]:
                 if f not in b[k]:
                     out.append((f"{k}.{f}", a[k][f], "<absent>"))
                 elif not (close(a[k][f], b[k][f], tol) if is_num(a[k][f]) and is_num(b[k][f]) else a[k][f] == b[k][f]):
+                    if tol and f in nonadd and is_num(a[k][f]) and is_num(b[k][f]):
+                        # a non-additive pollutant is a volume-weighted mean: in a record that holds next to nothing (a
+                        # store emptied up to rounding residue) it is ill-conditioned - "to floating-point rounding" is
+                        # measured on value x volume, against the size of a unit of water
+                        va = next((a[k][x] for x in ("flow", "storage", "volume") if is_num(a[k].get(x))), None)
+                        vb = next((b[k][x] for x in ("flow", "storage", "volume") if is_num(b[k].get(x))), None)
+                        if va is not None and vb is not None and abs(float(a[k][f]) * float(va) - float(b[k][f]) * float(vb)) <= tol * max(1.0, abs(float(va)), abs(float(vb))):
+                            continue
                     out.append((f"{'/'.join(str(x) for x in k[:4])}.{f}", a[k][f], b[k][f]))
         if len(out) > 50:
             break
@@ -952,7 +962,10 @@ def run(rep, thorough):
     sizes = ["river", "supply", "land", "full"]
     for i in range(n_rand):
         polset = r.choice(["simple", "four", "reordered", "one", "default"])
-        cfg = wellformed(NG.gen_model(r, r.choice([3, 4, 6]), polset, sizes[i % 4]))
+        # (every third model has parameters changed through apply_overrides after construction: what is saved is the
+        # model as it stands, and the loaded model is constructed with those values)
+        cfg = wellformed(NG.gen_model(r, r.choice([3, 4, 6]), polset, sizes[i % 4], {"overrides": True} if i % 3 == 1 else None))
+        mon["with_overrides"] = mon.get("with_overrides", 0) + int(bool(cfg.get("overrides")))
         if (i // 4) % 2:
             cfg = relabel(cfg)          # labels as Model.save writes them (otherwise netgen files a RiverReservoir under its own label)
         plan.append((cfg, [False, True] if thorough else [bool(i % 2)]))
